@@ -1095,6 +1095,136 @@ pub fn do_op<K: KeyT, V: ValT>(m: &mut Map<K, V>, w: &[&str], chk: &mut Vec<Stri
             }
             Out::List(got)
         }
+        // owning iterators consumed through fold / for_each by a consumer that may PANIC part-way
+        // (C03 / C04): <op> <n> <k>: n calls of next(), then for_each; the consumer's k-th call keeps
+        // its element and then panics (k >= 1000000: never).  Every element handed out is held by the
+        // harness; the rest must be dropped exactly once by the iterator when it is dropped (normally
+        // or by the unwinding).
+        "intoiterfold" | "intokeysfold" | "intovaluesfold" | "drainfold" => {
+            let take = n(1) as usize;
+            let panic_at = n(2) as usize;
+            let hb = m.hasher().clone();
+            let snap: Vec<(u64, u64, u64)> = m.iter().map(|(k, v)| kvt(k, v)).collect();
+            let mut got: Vec<(u64, u64, u64)> = Vec::new();
+            let mut calls = 0usize;
+            let r = if w[0] == "drainfold" {
+                let mut it = m.drain();
+                for _ in 0..take {
+                    match it.next() {
+                        Some((k, v)) => {
+                            got.push(kvt(&k, &v));
+                            held.push(Box::new((k, v)));
+                        }
+                        None => break,
+                    }
+                }
+                catch_unwind(AssertUnwindSafe(|| {
+                    it.for_each(|(k, v)| {
+                        got.push(kvt(&k, &v));
+                        held.push(Box::new((k, v)));
+                        calls += 1;
+                        if calls == panic_at + 1 {
+                            std::panic::panic_any(HvPanic("pred"));
+                        }
+                    })
+                }))
+            } else {
+                let old = std::mem::replace(m, HashMap::with_hasher_in(hb, Ledger));
+                match w[0] {
+                    "intoiterfold" => {
+                        let mut it = old.into_iter();
+                        for _ in 0..take {
+                            match it.next() {
+                                Some((k, v)) => {
+                                    got.push(kvt(&k, &v));
+                                    held.push(Box::new((k, v)));
+                                }
+                                None => break,
+                            }
+                        }
+                        catch_unwind(AssertUnwindSafe(|| {
+                            it.for_each(|(k, v)| {
+                                got.push(kvt(&k, &v));
+                                held.push(Box::new((k, v)));
+                                calls += 1;
+                                if calls == panic_at + 1 {
+                                    std::panic::panic_any(HvPanic("pred"));
+                                }
+                            })
+                        }))
+                    }
+                    "intokeysfold" => {
+                        let mut it = old.into_keys();
+                        for _ in 0..take {
+                            match it.next() {
+                                Some(k) => {
+                                    got.push((k.id(), k.stamp(), 0));
+                                    held.push(Box::new(k));
+                                }
+                                None => break,
+                            }
+                        }
+                        catch_unwind(AssertUnwindSafe(|| {
+                            it.for_each(|k| {
+                                got.push((k.id(), k.stamp(), 0));
+                                held.push(Box::new(k));
+                                calls += 1;
+                                if calls == panic_at + 1 {
+                                    std::panic::panic_any(HvPanic("pred"));
+                                }
+                            })
+                        }))
+                    }
+                    _ => {
+                        let mut it = old.into_values();
+                        for _ in 0..take {
+                            match it.next() {
+                                Some(v) => {
+                                    got.push((0, 0, v.val()));
+                                    held.push(Box::new(v));
+                                }
+                                None => break,
+                            }
+                        }
+                        catch_unwind(AssertUnwindSafe(|| {
+                            it.for_each(|v| {
+                                got.push((0, 0, v.val()));
+                                held.push(Box::new(v));
+                                calls += 1;
+                                if calls == panic_at + 1 {
+                                    std::panic::panic_any(HvPanic("pred"));
+                                }
+                            })
+                        }))
+                    }
+                }
+            };
+            if r.is_ok() && got.len() != snap.len() {
+                chk.push(format!("{}: next() x {} + for_each delivered {} of {} elements", w[0], take, got.len(), snap.len()));
+            }
+            // keys / values only: report the full entries that were handed out, by identity
+            if w[0] == "intokeysfold" {
+                let mut out = Vec::new();
+                for g in &got {
+                    match snap.iter().find(|x| x.0 == g.0 && x.1 == g.1) {
+                        Some(x) => out.push(*x),
+                        None => chk.push(format!("into_keys yields key {}:{} which was not stored", g.0, g.1)),
+                    }
+                }
+                got = out;
+            } else if w[0] == "intovaluesfold" {
+                let mut pool = snap.clone();
+                let mut out = Vec::new();
+                for g in &got {
+                    match pool.iter().position(|x| x.2 == g.2) {
+                        Some(i) => out.push(pool.swap_remove(i)),
+                        None => chk.push(format!("into_values yields value {} which was not stored (or twice)", g.2)),
+                    }
+                }
+                got = out;
+            }
+            Out::List(got)
+        }
         // ---------------- leaking iterators / drains / entries (C02) ----------------
         "forget_drain" => {
             let take = n(1) as usize;
